@@ -524,8 +524,11 @@ def main(prop_id, tier="quick", replay=None):
         ev["coverage"]["coqchk"] = res.coqchk
     if known_hits:
         ev["coverage"]["known_findings_hit"] = sorted({k["signature"] for k, _ in known_hits})
-    os.makedirs(os.path.join(ROOT, "evidence"), exist_ok=True)
-    json.dump(ev, open(os.path.join(ROOT, "evidence", mod.ID + ".json"), "w"), indent=1, default=str)
+    # evidence/ only ever describes runs against /repo itself; runs against another checkout
+    # (VERIF_REPO=<scratch worktree>, used for seeded-change testing) write to .scratch instead
+    evdir = os.path.join(ROOT, "evidence") if os.path.realpath(REPO) == "/repo" else os.path.join(SCRATCH, "evidence_other_repo")
+    os.makedirs(evdir, exist_ok=True)
+    json.dump(ev, open(os.path.join(evdir, mod.ID + ".json"), "w"), indent=1, default=str)
 
     seen = set()
     for k, c in known_hits:
